@@ -594,7 +594,13 @@ func (env *SpecEnv) binary(n *ast.BinaryExpr) sv {
 			if k, ok := lowMask(y); ok {
 				return sv{V: c.IMod(x, c.IntConst(pow2(k))), T: t}
 			}
-			env.fail("& in int mode needs a low mask")
+			if r, ok := e.andConstInt(x, y); ok {
+				return sv{V: r, T: t}
+			}
+			if r, ok := e.andConstInt(y, x); ok {
+				return sv{V: r, T: t}
+			}
+			env.fail("& in int mode needs a low mask or a constant with few bits")
 		}
 		return sv{V: c.BvAnd(x, y), T: t}
 	case token.OR:
